@@ -179,7 +179,13 @@ def check_selfconsistency(ctx, it, pts, kinds, tag=""):
         ctx.cls("pt:" + k)
 
     # -- value -------------------------------------------------------------------------------------
-    val = np.asarray(it.func(pts), dtype=float)
+    # evaluated through a work array that held OTHER points in an earlier call and was re-filled in place: the
+    # interpolant is a function of the coordinates it is given, not of the array object
+    buf = np.array(pts[::-1], dtype=float) * 0.97 + 0.013
+    it.func(buf)
+    buf[...] = pts
+    val = np.asarray(it.func(buf), dtype=float)
+    ctx.check(np.array_equal(buf, pts), tag + "evaluation-points-modified", "the interpolant changed the array of evaluation points")
     if val.shape != (M,):
         ctx.fail(tag + "value-shape", f"interpolant returned shape {val.shape} for {M} points")
         return
